@@ -6507,6 +6507,11 @@ class SSHServerConnection(SSHConnection):
         listener: SSHListener
         result: Union[bool, bytes]
 
+        if self.is_closed():
+            # The connection was lost while the application was deciding
+            listener.close()
+            return
+
         if listen_port == 0:
             listen_port = listener.get_port()
             result = UInt32(listen_port)
@@ -6645,6 +6650,11 @@ class SSHServerConnection(SSHConnection):
                              'application', listen_path)
 
             self._report_global_response(False)
+            return
+
+        if self.is_closed():
+            # The connection was lost while the application was deciding
+            cast(SSHListener, listener).close()
             return
 
         self.logger.info('Created UNIX listener on %s', listen_path)
